@@ -119,29 +119,10 @@ func checkC20(r *Run) {
 						}
 					}
 				}
-				if !ok {
-					// Attach's afid: NOFID or the auth file's own fid (phi)
-					if ph, isPhi := a.(*ssa.Phi); isPhi {
-						all := true
-						for _, e := range ph.Edges {
-							if k, isC := e.(*ssa.Const); isC {
-								if v, ok2 := constInt(k); ok2 && uint32(v) == 0xFFFFFFFF {
-									continue
-								}
-							}
-							if f, isF := e.(*ssa.Field); isF && fieldNameV(f.X.Type(), f.Field) == "afid" {
-								continue
-							}
-							if u, isU := e.(*ssa.UnOp); isU && u.Op == token.MUL {
-								if fad, isFA := u.X.(*ssa.FieldAddr); isFA && fieldName(fad.X.Type(), fad.Field) == "afid" {
-									continue
-								}
-							}
-							all = false
-						}
-						if all {
-							ok, why = true, "NOFID or the auth file's fid"
-						}
+				if !ok && m == "Attach" {
+					// Attach's afid: NOFID or the auth file's own fid (directly, through a phi, or computed by a helper)
+					if authFidValue(p, a, 0) {
+						ok, why = true, "NOFID or the auth file's fid"
 					}
 				}
 				r.Check(ok, "own-fid", fmt.Sprintf("%s: Session.%s arg %d is the entry's own fid", fnName(fn), m, i), c.Pos(),
@@ -427,4 +408,53 @@ func c20Attach(r *Run) {
 		}
 	}
 	r.Floor("attach", n, 2, "success returns of fsState.Attach/Auth")
+}
+
+// authFidValue: v is NOFID, the afid field of an auth file, a phi of such values, or the result of a helper all of
+// whose returns yield such a value at that result position.
+func authFidValue(p *Prog, v ssa.Value, depth int) bool {
+	if depth > 4 {
+		return false
+	}
+	switch x := v.(type) {
+	case *ssa.Const:
+		c, ok := constInt(x)
+		return ok && uint32(c) == 0xFFFFFFFF
+	case *ssa.Field:
+		return fieldNameV(x.X.Type(), x.Field) == "afid"
+	case *ssa.UnOp:
+		if x.Op == token.MUL {
+			if f, ok := x.X.(*ssa.FieldAddr); ok {
+				return fieldName(f.X.Type(), f.Field) == "afid"
+			}
+		}
+	case *ssa.Phi:
+		for _, e := range x.Edges {
+			if !authFidValue(p, e, depth+1) {
+				return false
+			}
+		}
+		return len(x.Edges) > 0
+	case *ssa.Extract:
+		c, ok := x.Tuple.(*ssa.Call)
+		if !ok {
+			return false
+		}
+		g := staticCallee(&c.Call)
+		if g == nil || g.Blocks == nil || !p.InModule(g) {
+			return false
+		}
+		n := 0
+		for _, ret := range returnsOf(g) {
+			if x.Index >= len(ret.Results) {
+				return false
+			}
+			n++
+			if !authFidValue(p, ret.Results[x.Index], depth+1) {
+				return false
+			}
+		}
+		return n > 0
+	}
+	return false
 }
